@@ -744,8 +744,11 @@ class SVEval:
             if m in ENTRY_METHODS and args and args[0] is not None and args[0][0] == "sub":
                 extra = [self.arg_text(a, env) for a in e["args"][1:]]
                 return [([], ("rec", m if rt == "self" else rt + "." + m, args[0][1], tuple(extra)), False, env)]
-            if rt == "self" and self._self_methods is not None and self._depth < 8:
-                target = self._self_methods(m)
+            if rt == "self" and self._depth < 8:
+                import srclib as _sl
+                target = self._self_methods(m) if self._self_methods is not None else None
+                if target is None:
+                    target = _sl._NEW_HELPERS.get(m)        # a helper extracted by a clean-up: part of the function that calls it
                 if target is not None and target.body is not None:
                     bind = {}
                     pnames = [b for p in target.sig["params"] if not p.get("self") for b in pat_bindings(p["pat"])]
@@ -769,6 +772,19 @@ class SVEval:
         env = o.env
         f = expr_text(e["func"])
         args = [self.first(a, o) for a in e["args"]]
+        import srclib as _sl
+        last = f.split("::")[-1]
+        if last in _sl._NEW_HELPERS and self._depth < 8 and (f == last or f.startswith("Self::") or "::" in f):
+            # `Self::helper(..)` / `helper(..)` where helper is new: evaluated as part of the caller
+            target = _sl._NEW_HELPERS[last]
+            bind = {}
+            pnames = [b for p in target.sig["params"] if not p.get("self") for b in pat_bindings(p["pat"])]
+            for nm, av in zip(pnames, args):
+                bind[nm] = av
+            sub = SVEval(self.S)
+            paths = sub.fn_paths(target, bind, self._self_methods, self._depth + 1)
+            if paths:
+                return [(["%s: %s" % (last, c) for c in cs], v, False, env) for (cs, v) in paths][:MAX_PATHS]
         if f in ("String::from", "Some", "Ok", "Box::new", "String::new") :
             if not args:
                 return [([], lit(""), False, env)]
